@@ -206,6 +206,7 @@ _VOCAB = None
 
 
 _TVOCAB = None
+KEEP_AS_ADT = set()     # filled when facts are loaded (mirlib.Facts): unknown structs with a hand-written Display
 
 
 def is_unknown_struct(path):
@@ -223,6 +224,8 @@ def is_unknown_struct(path):
             _TVOCAB = set()
     if not _TVOCAB:
         return False
+    if path in KEEP_AS_ADT:
+        return False        # a new type with its own Display: rules look its Display up by the type (node names, labels)
     return path not in _TVOCAB and "span::Span" != path and "with_positions::WithPositions" != path
 
 
